@@ -50,8 +50,8 @@ def kwClass : List Char := ['c', 'l', 'a', 's', 's']
 def kwPass : List Char := ['p', 'a', 's', 's']
 def kwFrom : List Char := ['f', 'r', 'o', 'm']
 def kwImport : List Char := ['i', 'm', 'p', 'o', 'r', 't']
-def nStructure : List Char := "Structure".toList
-def nTypedpy : List Char := "typedpy".toList
+def nStructure : List Char := chars!"Structure"
+def nTypedpy : List Char := chars!"typedpy"
 def sep : List Char := [',', ' ']
 
 mutual
@@ -201,55 +201,55 @@ def defaultExpr (O : EOra) (v : PyVal) : PyExpr :=
 
 /-! ### schema → expression (`convert_to_field_code`) -/
 
-def kw (k : String) (e : PyExpr) : List (List Char × PyExpr) := [(k.toList, e)]
-def optKw {α} (k : String) (f : α → PyExpr) : Option α → List (List Char × PyExpr)
+def kw (k : List Char) (e : PyExpr) : List (List Char × PyExpr) := [(k, e)]
+def optKw {α} (k : List Char) (f : α → PyExpr) : Option α → List (List Char × PyExpr)
   | none => []
-  | some x => [(k.toList, f x)]
+  | some x => [(k, f x)]
 def natExpr (n : Nat) : PyExpr := .num (natText n)
 def withDefault (O : EOra) (d : Option PyVal) (kws : List (List Char × PyExpr)) : List (List Char × PyExpr) :=
-  kws ++ optKw "default" (defaultExpr O) d
+  kws ++ optKw chars!"default" (defaultExpr O) d
 
 def strList (xs : List String) : PyExpr := .list (xs.map fun s => .strLit s.toList)
 
 /-- `ArrayMapper.get_paramlist_from_schema`: uniqueItems, additionalItems, minItems, maxItems (then items) -/
 def arrKws (sz : SizeOpts) (addl : Bool) : List (List Char × PyExpr) :=
-  (if sz.uniq then kw "uniqueItems" (.const cTrue) else [])
-  ++ (if addl then [] else kw "additionalItems" (.const cFalse))
-  ++ optKw "minItems" natExpr sz.min ++ optKw "maxItems" natExpr sz.max
+  (if sz.uniq then kw chars!"uniqueItems" (.const cTrue) else [])
+  ++ (if addl then [] else kw chars!"additionalItems" (.const cFalse))
+  ++ optKw chars!"minItems" natExpr sz.min ++ optKw chars!"maxItems" natExpr sz.max
 
-def callS (f : String) (kws : List (List Char × PyExpr)) : PyExpr := .call f.toList kws
+def callS (f : List Char) (kws : List (List Char × PyExpr)) : PyExpr := .call f kws
 
 mutual
 /-- the expression emitted for a (sub)schema; `d` = the `default` of the property it stands for -/
 def schemaExpr (O : EOra) : Schema → Option PyVal → PyExpr
   | .ref n, _ => .name n.toList
   | .num i mult mn mx ex, d =>
-    callS (if i then "Integer" else "Number") (withDefault O d
-      (optKw "multiplesOf" intExpr mult ++ optKw "minimum" (qExpr O) mn ++ optKw "maximum" (qExpr O) mx
-        ++ (if ex then kw "exclusiveMaximum" (.const cTrue) else [])))
+    callS (if i then chars!"Integer" else chars!"Number") (withDefault O d
+      (optKw chars!"multiplesOf" intExpr mult ++ optKw chars!"minimum" (qExpr O) mn ++ optKw chars!"maximum" (qExpr O) mx
+        ++ (if ex then kw chars!"exclusiveMaximum" (.const cTrue) else [])))
   | .str lo hi p, d =>
-    callS "String" (withDefault O d
-      (optKw "minLength" natExpr lo ++ optKw "maxLength" natExpr hi
-        ++ optKw "pattern" (fun (s : String) => PyExpr.strLit s.toList) p))
-  | .bool, d => callS "Boolean" (withDefault O d [])
-  | .enum vs, d => callS "Enum" (withDefault O d (kw "values" (.list (valExprL O vs))))
-  | .arrAny sz, d => callS "Array" (withDefault O d (arrKws sz true))
-  | .arrOf s sz, d => callS "Array" (withDefault O d (arrKws sz true ++ kw "items" (schemaExpr O s none)))
+    callS chars!"String" (withDefault O d
+      (optKw chars!"minLength" natExpr lo ++ optKw chars!"maxLength" natExpr hi
+        ++ optKw chars!"pattern" (fun (s : String) => PyExpr.strLit s.toList) p))
+  | .bool, d => callS chars!"Boolean" (withDefault O d [])
+  | .enum vs, d => callS chars!"Enum" (withDefault O d (kw chars!"values" (.list (valExprL O vs))))
+  | .arrAny sz, d => callS chars!"Array" (withDefault O d (arrKws sz true))
+  | .arrOf s sz, d => callS chars!"Array" (withDefault O d (arrKws sz true ++ kw chars!"items" (schemaExpr O s none)))
   | .arrPos ss addl sz, d =>
-    callS "Array" (withDefault O d (arrKws sz addl ++ kw "items" (.list (schemaExprL O ss))))
-  | .mapAny _ _ _, d => callS "Map" (withDefault O d [])
+    callS chars!"Array" (withDefault O d (arrKws sz addl ++ kw chars!"items" (.list (schemaExprL O ss))))
+  | .mapAny _ _ _, d => callS chars!"Map" (withDefault O d [])
   | .mapOf v mn mx, d =>
-    callS "Map" (withDefault O d
-      (kw "items" (.list [callS "String" [], schemaExpr O v none])
-        ++ optKw "maxItems" natExpr mx ++ optKw "minItems" natExpr mn))
+    callS chars!"Map" (withDefault O d
+      (kw chars!"items" (.list [callS chars!"String" [], schemaExpr O v none])
+        ++ optKw chars!"maxItems" natExpr mx ++ optKw chars!"minItems" natExpr mn))
   | .obj props defaults required addl, d =>
-    callS "StructureReference" (withDefault O d
-      ((if addl then [] else kw "_additional_properties" (.const cFalse))
-        ++ optKw "_required" strList required ++ schemaKws O defaults props))
-  | .allOf ss, d => callS "AllOf" (withDefault O d (kw "fields" (.list (schemaExprL O ss))))
-  | .anyOf ss, d => callS "AnyOf" (withDefault O d (kw "fields" (.list (schemaExprL O ss))))
-  | .oneOf ss, d => callS "OneOf" (withDefault O d (kw "fields" (.list (schemaExprL O ss))))
-  | .notS ss, d => callS "NotField" (withDefault O d (kw "fields" (.list (schemaExprL O ss))))
+    callS chars!"StructureReference" (withDefault O d
+      ((if addl then [] else kw chars!"_additional_properties" (.const cFalse))
+        ++ optKw chars!"_required" strList required ++ schemaKws O defaults props))
+  | .allOf ss, d => callS chars!"AllOf" (withDefault O d (kw chars!"fields" (.list (schemaExprL O ss))))
+  | .anyOf ss, d => callS chars!"AnyOf" (withDefault O d (kw chars!"fields" (.list (schemaExprL O ss))))
+  | .oneOf ss, d => callS chars!"OneOf" (withDefault O d (kw chars!"fields" (.list (schemaExprL O ss))))
+  | .notS ss, d => callS chars!"NotField" (withDefault O d (kw chars!"fields" (.list (schemaExprL O ss))))
   | .unsupported _, _ => .bad
 termination_by structural s => s
 def schemaExprL (O : EOra) : List Schema → List PyExpr
@@ -301,9 +301,9 @@ def propItems (O : EOra) (defaults : List (String × PyVal)) : List (String × S
   | [] => []
   | (n, s) :: ps => .ann n.toList (schemaExpr O s (lookup n defaults)) :: propItems O defaults ps
 
-def nWrapped : List Char := "wrapped".toList
-def nRequired : List Char := "_required".toList
-def nAddl : List Char := "_additional_properties".toList
+def nWrapped : List Char := chars!"wrapped"
+def nRequired : List Char := chars!"_required"
+def nAddl : List Char := chars!"_additional_properties"
 
 def docItems : Option String → List Item
   | none => []
@@ -341,7 +341,7 @@ def classText (O : EOra) (name : String) (desc : Option String) (s : Schema) : L
 
 def importLine : List Char := kwFrom ++ ' ' :: (nTypedpy ++ ' ' :: (kwImport ++ [' ', '*']))
 def nl3 : List Char := [cLF, cLF, cLF]
-def starLine : List Char := "# ********************".toList
+def starLine : List Char := chars!"# ********************"
 
 structure ClassSrc where
   name : String
